@@ -58,7 +58,11 @@ def canonical_key(version_string):
         components[-1] = components[-1][:-1]
     # Components that begin with a "0" are compared as the decimals of a float:
     # their trailing zeros are not significant.
-    components = [c.rstrip("0") if c.startswith("0") else c for c in components]
+    # The first component is compared as an integer: its leading zeros are not.
+    components = [
+        (c.lstrip("0") or "0") if i == 0 else c.rstrip("0") if c.startswith("0") else c
+        for i, c in enumerate(components)
+    ]
     suffixes = [
         (match.group(1), int("0" + match.group(2)))
         for match in map(suffix_regexp.match, suffixes)
@@ -120,16 +124,17 @@ def vercmp(ver1, ver2):
         ver_parts2_len = len(ver_parts2)
 
         # Iterate through the components
-        for v1, v2 in zip(ver_parts1, ver_parts2):
+        for i, (v1, v2) in enumerate(zip(ver_parts1, ver_parts2)):
 
             # If the string components are equal, the numerical
             # components will be equal too.
             if v1 == v2:
                 continue
 
-            # If one of the components begins with a "0" then they
-            # are compared as floats so that 1.1 > 1.02; else ints.
-            if v1[0] != "0" and v2[0] != "0":
+            # The first components are always compared as ints. If one of
+            # the next components begins with a "0" then they are compared
+            # as floats so that 1.1 > 1.02; else ints.
+            if i == 0 or (v1[0] != "0" and v2[0] != "0"):
                 v1 = int(v1)
                 v2 = int(v2)
             else:
